@@ -316,9 +316,24 @@ func (g *G) perturb(n M) (M, string) {
 			}
 			cur["p"] = asStr(cur["p"]) + "7"
 		} else {
-			mm := pairsToMap(e["h"])
-			mm[int32(1+g.Int(3))] = g.Pick([]string{"deep1", "deep2"})
-			e["h"] = mapToPairs(mm)
+			// one member of a reference: a hash, the URL, the comment, the authority or the type
+			switch g.Int(5) {
+			case 0:
+				mm := pairsToMap(e["h"])
+				mm[int32(1+g.Int(3))] = g.Pick([]string{"deep1", "deep2"})
+				e["h"] = mapToPairs(mm)
+			case 1:
+				e["u"] = asStr(e["u"]) + "/x"
+			case 2:
+				e["c"] = asStr(e["c"]) + "!"
+			case 3:
+				e["a"] = map[string]any{"": "nvd", "auth": "osv"}[asStr(e["a"])]
+				if e["a"] == nil {
+					e["a"] = "nvd"
+				}
+			default:
+				e["t"] = float64(asInt(e["t"]) + 1)
+			}
 		}
 		cand := Normalize(M{"v": l}).(M)["v"]
 		if !attrEqual(f, old, cand) {
@@ -496,7 +511,16 @@ func eqGen(g *G, tier string) []M {
 				e["tos"] = append(e["tos"].([]any), g.Pick(idPoolAll))
 			}
 			f := Normalize(e).(M)
-			switch g.Int(3) {
+			switch g.Int(4) {
+			case 3:
+				// the same number of targets, drawn from the same identifiers, another one repeated
+				ts := asList(e["tos"])
+				if len(ts) >= 2 {
+					a, b := ts[0], ts[1]
+					e["tos"] = append([]any{a, a, b}, ts[2:]...)
+					f = Normalize(e).(M)
+					f["tos"] = shuffleAny(g, append([]any{a, b, b}, ts[2:]...))
+				}
 			case 0:
 				f["tos"] = shuffleAny(g, asList(f["tos"]))
 			case 1:
